@@ -566,7 +566,7 @@ def run_campaign(camp, tier, seed, wd):
         replay_s += tb - ta
         add_trace_stats(stats, traces)
         bad = {f["id"] for f in j["fails"]}
-        kept.extend(t for t in traces if t["id"] in bad)
+        kept.extend(t for t in traces if t["id"] in bad or camp.get("keep_traces"))
         fails.extend(j["fails"])
         for k_ in ("states", "transitions", "cnt"):
             jtot[k_] += j[k_]
